@@ -18,7 +18,7 @@ LEVEL_TEXT = ("Every listed clause is proved for all real NTU > 0, 0 <= c <= 1 (
 ASSUMPTIONS = [
     "exp, ln, x**y are uninterpreted; only these laws are used: exp>0, ln(exp t)=t, exp(ln u)=u (u>0), strict monotonicity, exp(t)>=1+t, "
     "1-1/u <= ln u <= u-1 (Mathlib Real.one_sub_inv_le_log_of_pos, Real.log_le_sub_one_of_pos), exp(a)exp(-a)=1, ln(1/u)=-ln u, (a**(1/n))**n=a",
-    "C20.lmtd.upper additionally uses the log-mean <= arithmetic-mean inequality ln u >= 2(u-1)/(u+1) for u >= 1 as an ASSUMED analytic lemma",
+    "C20.lmtd.upper additionally uses the log-mean <= arithmetic-mean inequality ln u >= 2(u-1)/(u+1) for u >= 1: no longer assumed, proved in lean/Axioms.lean (log_ge_two_mul_ax, log_mean_upper_ax, log_mean_lower_ax) and re-checked by C20.axioms.lean; like the exp / ln / sqrt / pow ground axioms above (every add_axiom line tied to its theorem by hash). What remains assumed: the reading of the uninterpreted symbols as Real.exp / Real.log / Real.sqrt / Real.rpow and Lean's kernel",
 ]
 NOT_COVERED = [
     "HX_NTU_Numerical (secant iteration): no inductive invariant gives convergence, hence the inverse for CrFUU / CrFMM",
@@ -217,7 +217,7 @@ def ob_lmtd_upper(h):
     a, b = h.real("dt1"), h.real("dt2")
     h.assume(And(a > 0.000001, b > 0.000001))
     if h.symbolic:
-        # ASSUMED analytic lemma (log-mean <= arithmetic mean), instantiated for the one ratio the code builds
+        # analytic lemma (log-mean <= arithmetic mean; proved in lean/Axioms.lean: log_mean_upper_ax / log_mean_lower_ax, checked by C20.axioms.lean), instantiated for the one ratio the code builds
         from pvc.sym import SymReal, _F_LOG, ctx
         import z3
         u = (a / b).z
@@ -295,8 +295,12 @@ def obligations():
         obs.append(Obligation(f"C20.multipass.{d}", _ob_multipass(d), functions=[hx.MultiPassEff, hx.MultiPassNTU], timeout_ms=30000))
     lf = [hx.compute_LMTD_from_dts]
     obs.append(Obligation("C20.lmtd.between_end_differences", ob_lmtd_bounds, functions=lf, expect=("lmtd_at_least_smaller_difference",)))
+    from pvc import leanax
+    obs.append(Obligation("C20.axioms.lean", None, kind="lean", runner=leanax.runner, functions=[],
+                          doc="the ground axioms about exp / ln / sqrt / pow / rounding given to the SMT solver, and the log-mean lemma of C20.lmtd.upper, are theorems of "
+                              "Mathlib's real analysis: lean/Axioms.lean, re-checked by Lean on every run; every add_axiom line of pvc/sym.py is tied to its theorem by hash"))
     obs.append(Obligation("C20.lmtd.upper", ob_lmtd_upper, functions=lf, expect=("lmtd_at_most_arithmetic_mean",),
-                          assumptions=("ASSUMED lemma: ln u >= 2(u-1)/(u+1) for u >= 1 (and <= for 0 < u <= 1)",)))
+                          assumptions=("lemma ln u >= 2(u-1)/(u+1) for u >= 1 (and <= for 0 < u <= 1): proved in Lean (lean/Axioms.lean, obligation C20.axioms.lean), instantiated by hand for the one ratio the code builds",)))
     obs.append(Obligation("C20.lmtd.symmetric", ob_lmtd_symmetric, functions=lf))
     obs.append(Obligation("C20.lmtd.equal_branch", ob_lmtd_equal_branch, functions=lf, expect=("arithmetic_mean_returned",)))
     obs.append(Obligation("C20.lmtd.refuses_nonpositive", ob_lmtd_refuses, functions=lf, expect=("refused",)))
